@@ -16,6 +16,10 @@
   MHD_add_response_header / MHD_del_response_header / MHD_set_response_options), see
   `head101_is_reply_builder`, `upgrade_head_connection_tokens`, `head101_explicit`.
 
+  Thread-per-connection: the model has no thread identity; that the handle is released only after the connection's
+  thread has left the upgrade handler and was joined (MHD_cleanup_connections) is covered by the tie only (gated
+  upgrade handler in harness/h_upg.c, ASan), not by a theorem.
+
   TLS-upgraded connections: the forwarding layer (`process_urh`, the "finished forwarding" test,
   `clean_ready`, the close action, shutdown) is modelled in `Mhd.Model.UpgTls` as far as it is
   logic — buffers, fill levels, stop flags, readiness bits — with the record layer (GnuTLS) and the
@@ -236,6 +240,17 @@ theorem upgrade_head_indep_of_request (cs : List Call) (hl : ∀ c ∈ cs, c.Leg
     headBytes c (runCalls Resp.createUpgrade cs) code date = headBytes c' (runCalls Resp.createUpgrade cs) code date := by
   obtain ⟨hi, _, hu, _⟩ := upgradeObj_facts cs hl
   exact headBytes_indep_of_request c c' _ code date hi hu hs hc
+
+open Mhd.Resp Mhd.Reply in
+/-- **…in particular not on the request method**: GET, HEAD, POST, PUT, DELETE, OPTIONS, CONNECT, TRACE, an unknown
+    method — a 1xx reply gets no body headers whatever the method (`is_reply_body_needed` looks at the status class
+    first), so a HEAD request answered with 101 receives the same head, without `Content-Length`. -/
+theorem upgrade_head_any_method (cs : List Call) (hl : ∀ c ∈ cs, c.Legal) (c : Mhd.Reply.Conn) (m : Mthd)
+    (code : Nat) (hc : code ≤ 199) (date : Bytes) :
+    headBytes { c with mthd := m } (runCalls Resp.createUpgrade cs) code date = headBytes c (runCalls Resp.createUpgrade cs) code date ∧
+    (setupReplyProperties { c with mthd := m } (runCalls Resp.createUpgrade cs) code).2.useReplyBodyHeaders = false :=
+  ⟨upgrade_head_indep_of_request cs hl { c with mthd := m } c rfl code hc date,
+   by rw [setup_upgrade _ _ code (upgradeObj_facts cs hl).2.2.1 hc]⟩
 
 /-- an accepted upgrade response has status 101 and none of the HTTP/1.0 response flags -/
 theorem accepted_upgrade_is_101_http11 (cfg : Cfg) (shutdown : Bool) (x : Conn) (rs : Mhd.Upg.Resp)
@@ -615,6 +630,10 @@ example : (∀ c ∈ Ex.upCalls, c.Legal) ∧ Ex.upResp.obj.flags.sendKeepAlive 
     (Content-Length together with chunked Transfer-Encoding): still MUST_UPGRADE, still the same head (fix F37) -/
 example : (Mhd.Reply.setupReplyProperties { keepalive := .mustClose } Ex.upResp.obj 101).1 = .mustUpgrade ∧
     headBytes { keepalive := .mustClose } Ex.upResp.obj 101 Ex.base.date = head101 Ex.base Ex.upResp := by decide
+
+/-- … and on a HEAD request (the model's `head101` is computed for GET): same head, no body headers -/
+example : headBytes { mthd := .head } Ex.upResp.obj 101 Ex.base.date = head101 Ex.base Ex.upResp ∧
+    Mhd.Reply.isReplyBodyNeeded .head 101 = .none := by decide
 
 set_option maxRecDepth 200000 in
 /-- … and its 101 head, computed by the reply builder: `HTTP/1.1 101 Switching Protocols`, `Date: D`,
